@@ -30,6 +30,7 @@ type FuncResult struct {
 // safety sweep only).
 func (e *Engine) VerifyFunc(fn *ssa.Function, fc *FuncContract) (res *FuncResult) {
 	ctx := NewCtx()
+	ctx.tid = e.typeID
 	res = &FuncResult{Name: FuncName(fn), Ctx: ctx, Contract: fc, Used: map[string]bool{}}
 	f := &Frame{eng: e, ctx: ctx, fn: fn, vals: map[ssa.Value]string{}, tuples: map[ssa.Value][]string{},
 		reach: map[*ssa.BasicBlock]string{}, endSt: map[*ssa.BasicBlock]*State{}, contract: fc,
@@ -75,8 +76,18 @@ func (e *Engine) VerifyFunc(fn *ssa.Function, fc *FuncContract) (res *FuncResult
 		a := ctx.Fresh("fv_"+fv.Name(), ctx.sortOf(fv.Type()))
 		ctx.Fact(ctx.typeFacts(a, fv.Type(), st.alloc))
 		// free variables are addresses of captured cells: non-nil
-		if _, isPtr := fv.Type().Underlying().(*types.Pointer); isPtr {
+		if pt, isPtr := fv.Type().Underlying().(*types.Pointer); isPtr {
 			ctx.Fact(Not(Eq(a, "nil")))
+			// each is a whole variable of the enclosing function, allocated with its own type,
+			// and different captured variables are different objects
+			if fn.Parent() != nil {
+				ctx.Fact(fmt.Sprintf("(and (= (ppath %s) here) %s)", a, e.objTypeFact(a, pt.Elem())))
+				for j, b := range bindings {
+					if _, ok := fn.FreeVars[j].Type().Underlying().(*types.Pointer); ok {
+						ctx.Fact(fmt.Sprintf("(not (= (pobj %s) (pobj %s)))", a, b))
+					}
+				}
+			}
 		}
 		bindings = append(bindings, a)
 	}
